@@ -730,6 +730,23 @@ func (w *vfmWorld) observe() map[string]any {
 		}
 	}
 	st["ann"], st["w"] = ann, vfmSortedKeys(watched)
+	// informational (not part of the conformance check, it depends on the server's TTL): own points the
+	// discovery server still serves although no announce is live on them (the swiper never unregisters)
+	srv := []int{}
+	for i, s := range w.seeds {
+		n := 0
+		for range w.msrv.FindPeers(w.topicOf(w.ownPK, s), 8) {
+			n++
+		}
+		live := false
+		for _, k := range ann {
+			live = live || k == i+1
+		}
+		if n > 0 && !live {
+			srv = append(srv, i+1)
+		}
+	}
+	st["srv"] = srv
 	st["other"] = len(advs) + len(subs) // live announces / watches on a topic that is nobody's point
 	st["h"] = w.ipfs.hasHandler()
 	q := 0
